@@ -148,7 +148,7 @@ class TU:
         return "?"
 
 
-class ConfigTimeout(Exception):
+class ConfigTimeout(BaseException):
     pass
 
 
